@@ -294,8 +294,126 @@ def sym_rules(run, db):
         raise AnalysisError('compute_z_zprime_Q2d: no emptiness guards found')
 
 
+def mirror_rules(run, db):
+    """compute_z_zprime_Q2d: the cosine block and the sine block are mirror images under one renaming of family-local names,
+    and every name they share does not depend on either family."""
+    f = db.func(Q + 'compute_z_zprime_Q2d')
+    loops = [n for n in walk_no_nested(f.node) if isinstance(n, ast.For) and 'a_coef' in ast.unparse(n.target)]
+    if len(loops) != 1:
+        raise AnalysisError('compute_z_zprime_Q2d: loop over (a_coef, b_coef) not found')
+    lp = loops[0]
+    blocks = {}
+    for st in lp.body:
+        if isinstance(st, ast.If) and not st.orelse:
+            t = ast.unparse(st.test).replace(' ', '')
+            for fam in ('a_coef', 'b_coef'):
+                if t in ('len(%s)>0' % fam, 'len(%s)!=0' % fam, 'len(%s)>=1' % fam):
+                    blocks[fam] = st
+    if set(blocks) != {'a_coef', 'b_coef'}:
+        raise AnalysisError('compute_z_zprime_Q2d: the two family blocks `if len(x_coef) > 0:` were not found')
+    A, B = blocks['a_coef'], blocks['b_coef']
+    mapping = {}
+    mismatch = []
+
+    def walk(x, y):
+        if type(x) is not type(y):
+            mismatch.append((x, y))
+            return
+        if isinstance(x, ast.Name):
+            if mapping.setdefault(x.id, y.id) != y.id:
+                mismatch.append((x, y))
+            return
+        if isinstance(x, ast.Constant):
+            if x.value != y.value:
+                mismatch.append((x, y))
+            return
+        for (fa, va), (fb, vb) in zip(ast.iter_fields(x), ast.iter_fields(y)):
+            if fa in ('lineno', 'col_offset', 'end_lineno', 'end_col_offset', 'ctx', 'type_comment'):
+                continue
+            if isinstance(va, list):
+                if not isinstance(vb, list) or len(va) != len(vb):
+                    mismatch.append((x, y))
+                    return
+                for p_, q_ in zip(va, vb):
+                    if isinstance(p_, ast.AST):
+                        walk(p_, q_)
+                    elif p_ != q_:
+                        mismatch.append((x, y))
+            elif isinstance(va, ast.AST):
+                if not isinstance(vb, ast.AST):
+                    mismatch.append((x, y))
+                    return
+                walk(va, vb)
+            elif va != vb:
+                mismatch.append((x, y))
+    for sa_, sb_ in zip(A.body, B.body):
+        walk(sa_, sb_)
+    if len(A.body) != len(B.body):
+        mismatch.append((A, B))
+    first = mismatch[0] if mismatch else None
+    run.check(not mismatch, 'C10.sym', f.qual, 'mirror blocks', 'the sine block is the cosine block under one consistent renaming (%s)' % ', '.join('%s->%s' % kv for kv in sorted(mapping.items()) if kv[0] != kv[1]),
+              'the cosine and sine blocks are not mirror images: `%s` vs `%s`' % ((norm_stmt(first[0]) if isinstance(first[0], ast.stmt) else ast.unparse(first[0])) if first else '',
+                                                                                 (norm_stmt(first[1]) if isinstance(first[1], ast.stmt) else ast.unparse(first[1])) if first else ''), f.loc(first[1]) if first else f.loc())
+    inj = len(set(mapping.values())) == len(mapping)
+    run.check(inj and mapping.get('a_coef') == 'b_coef', 'C10.sym', f.qual, 'renaming', 'the renaming is one-to-one and maps a_coef to b_coef', 'two cosine-side names map to one sine-side name: %s' % mapping, f.loc(B))
+    # shared names (mapped to themselves) must not depend on either family
+    defs = {}
+    for n in ast.walk(lp):
+        if isinstance(n, ast.Assign):
+            for t in n.targets:
+                for x in ast.walk(t):
+                    if isinstance(x, ast.Name) and isinstance(x.ctx, ast.Store):
+                        defs.setdefault(x.id, set()).update(y.id for y in ast.walk(n.value) if isinstance(y, ast.Name))
+        elif isinstance(n, ast.AugAssign) and isinstance(n.target, ast.Name):
+            defs.setdefault(n.target.id, set()).update(y.id for y in ast.walk(n.value) if isinstance(y, ast.Name))
+
+    def depends(nm, seen=None):
+        seen = seen or set()
+        if nm in ('a_coef', 'b_coef'):
+            return nm
+        if nm in seen:
+            return None
+        seen.add(nm)
+        for y in defs.get(nm, ()):
+            r = depends(y, seen)
+            if r:
+                return r
+        return None
+    for nm in sorted(k for k, v in mapping.items() if k == v):
+        fam = depends(nm)
+        run.check(fam is None, 'C10.sym', f.qual, 'shared name %s' % nm, '`%s` is used by both family blocks and depends on neither coefficient list' % nm,
+                  '`%s` is used in BOTH family blocks but is computed from %s: the %s block is steered by the length/content of the other family '
+                  '(e.g. the m = 1 correction of the sine sum is applied according to the number of cosine coefficients)' % (nm, fam, 'sine' if fam == 'a_coef' else 'cosine'), f.loc(B))
+
+
 def pack_rules(run, db):
     f = db.func(Q + 'Q2d_nm_c_to_a_b')
+    # the output lists cover m = 1 .. max KEY of both dictionaries
+    rng = [n for n in walk_no_nested(f.node) if isinstance(n, ast.For) and isinstance(n.iter, ast.Call) and ast.unparse(n.iter.func) == 'range'
+           and any('ac_ret.append' in ast.unparse(st) for st in n.body)]
+    if len(rng) != 1:
+        raise AnalysisError('Q2d_nm_c_to_a_b: packing loop not found')
+    hi = ast.unparse(rng[0].iter.args[-1]).replace(' ', '')
+    lo = ast.unparse(rng[0].iter.args[0]).replace(' ', '') if len(rng[0].iter.args) > 1 else '0'
+    bound = hi[:-2] if hi.endswith('+1') else None
+    bdefs = [n for n in walk_no_nested(f.node) if isinstance(n, ast.Assign) and bound and ast.unparse(n.targets[0]) == bound]
+    okb = lo == '1' and len(bdefs) == 1
+    keysrc = set()
+    counts = []
+    if okb:
+        for n in ast.walk(bdefs[0].value):
+            if isinstance(n, ast.Call) and ast.unparse(n.func) == 'len' and n.args and ast.unparse(n.args[0]) in ('ac', 'bc'):
+                counts.append(ast.unparse(n))
+            if isinstance(n, ast.Starred) or (isinstance(n, ast.Call) and ast.unparse(n.func) in ('max', 'list', 'sorted', 'tuple')):
+                inner = n.value if isinstance(n, ast.Starred) else (n.args[0] if n.args else None)
+                t = ast.unparse(inner).replace(' ', '') if inner is not None else ''
+                for d in ('ac', 'bc'):
+                    if t in (d, d + '.keys()'):
+                        keysrc.add(d)
+        okb = isinstance(bdefs[0].value, ast.Call) and ast.unparse(bdefs[0].value.func) == 'max'
+    run.check(okb and keysrc == {'ac', 'bc'} and not counts, 'C10.pack', f.qual, 'azimuthal range', 'the packed lists run over m = 1 .. max(keys of the cosine and sine dictionaries)',
+              'the packed lists run over range(%s, %s) with %s = %s: %s -- azimuthal orders above that bound are silently dropped when the requested orders are sparse' %
+              (lo, hi, bound, ast.unparse(bdefs[0].value) if bdefs else '?', ('a COUNT of dictionary entries (%s) is used as a bound on the KEYS' % ', '.join(counts)) if counts else 'the keys of %s are not consulted' % sorted({'ac', 'bc'} - keysrc)), f.loc(bdefs[0]) if bdefs else f.loc())
     calls = [n for n in walk_no_nested(f.node) if isinstance(n, ast.Call) and isinstance(n.func, ast.Name) and n.func.id in ('max', 'min')]
     if not calls:
         raise AnalysisError('Q2d_nm_c_to_a_b: no max() found')
@@ -339,9 +457,9 @@ def check(run, db, tier):
     run.rule('C10.clenshaw', 'Clenshaw steps have the textbook form with coefficient indices (a,b from n; c from n+1); the initial statements are the step restricted to the top indices; the sweep reaches index 0')
     run.rule('C10.len1', 'with a coefficient vector of length 1 no negative index/order is formed and no missing entry is read')
     run.rule('C10.sym', 'cosine and sine azimuthal families are guarded symmetrically; no Clenshaw sum runs on an empty family')
-    run.rule('C10.pack', 'the coefficient packer never takes max() of a possibly empty key set')
+    run.rule('C10.pack', 'the coefficient packer never takes max() of a possibly empty key set; its azimuthal range is bounded by the maximum KEY of both dictionaries')
     run.rule('C10.lstsq', 'data and modes are restricted by one and the same finite-mask before the solve')
-    for fn in (clenshaw_rules, len1_rules, sym_rules, pack_rules, lstsq_rules):
+    for fn in (clenshaw_rules, len1_rules, sym_rules, mirror_rules, pack_rules, lstsq_rules):
         run.group(fn, run, db)
     run.require_instances('C10.clenshaw', 12)
     run.require_instances('C10.len1', 4)
